@@ -28,6 +28,9 @@ def ops_for(dev):
         ('debugfs fill', [D, '-w', '-z', '{u}', '-R', 'write {big} /undo_big', '{d}']),
         ('debugfs rm+mkdir', [D, '-w', '-z', '{u}', '-f', '{script}', '{d}']),
         ('debugfs damage+', [D, '-w', '-z', '{u}', '-R', 'sif /one links_count 7', '{d}']),
+        # more keys than one key block of the undo file holds (63 with 1 KiB undo blocks): 150 scattered single blocks are overwritten
+        ('debugfs zap 150 scattered blocks', [D, '-w', '-z', '{u}', '-f', '{zap}', '{d}']),
+        ('resize2fs grow x6', [R, '-z', '{u}', '-f', '{d}', '{grow6}']),
         ('mke2fs ext2', [M, '-q', '-F', '-z', '{u}', '-t', 'ext2', '-b', '1024', '-U', U2, '{d}']),
         ('mke2fs ext4 4k', [M, '-q', '-F', '-z', '{u}', '-t', 'ext4', '-b', '4096', '-O', '^has_journal', '-U', U2, '{d}']),
         ('mke2fs ext4 1k journal', [M, '-q', '-F', '-z', '{u}', '-t', 'ext4', '-b', '1024', '-J', 'size=1', '-U', U2, '{d}']),
@@ -37,14 +40,14 @@ def ops_for(dev):
 def fs_args(p):
     """substitutions that depend on the current filesystem on the device (csum on/off, journal on/off, sizes)"""
     from xck.image import Image
-    a = {'csum': 'metadata_csum', 'jnl': 'has_journal', 'grow': '0', 'shrink': '0'}
+    a = {'csum': 'metadata_csum', 'jnl': 'has_journal', 'grow': '0', 'shrink': '0', 'grow6': '0'}
     try:
         d = open(p, 'rb').read()
         off = OFFSET.get(os.path.basename(p), 0)
         im = Image(d[off:])
         a['csum'] = '^metadata_csum' if im.has_csum else 'metadata_csum'
         a['jnl'] = '^has_journal' if im.compat & 4 else 'has_journal'
-        a['grow'] = str(im.blocks_count + im.bpg // 2 + 3)
+        a['grow'] = str(im.blocks_count + im.bpg // 2 + 3); a['grow6'] = str(im.blocks_count * 6 + 5)
         a['shrink'] = str(max(im.blocks_count - im.bpg // 2 - 3, 64))
     except Exception:
         pass
@@ -64,7 +67,7 @@ def run_chain(j):
     ref = orig; log_ = []; ino = None; recorded = 0; units = set()
     for i, label in enumerate(chain):
         argv = dict(OPS)[label]
-        a = fs_args(p); a.update({'d': dev_arg, 'u': u, 'payload': PAYLOAD, 'big': BIG, 'script': SCRIPT})
+        a = fs_args(p); a.update({'d': dev_arg, 'u': u, 'payload': PAYLOAD, 'big': BIG, 'script': SCRIPT, 'zap': ZAP})
         if 'mke2fs' in label and off: a['d'] = p; argv = argv[:-1] + ['-E', 'offset=%d' % off, '{d}', '%dk' % ((len(orig) - off) // 1024)]
         elif 'mke2fs' in label: argv = argv + ['%dk' % (len(orig) // 1024)]
         argv = [x.format(**a) for x in argv]
@@ -153,7 +156,7 @@ def kill_job(j):
         if os.path.exists(x): os.unlink(x)
     with open(p, 'wb') as f: f.write(orig)
     argv = dict(OPS)[label]
-    a = fs_args(p); a.update({'d': p, 'u': u, 'payload': PAYLOAD, 'big': BIG, 'script': SCRIPT})
+    a = fs_args(p); a.update({'d': p, 'u': u, 'payload': PAYLOAD, 'big': BIG, 'script': SCRIPT, 'zap': ZAP})
     if 'mke2fs' in label: argv = argv + ['%dk' % (len(orig) // 1024)]
     argv = [x.format(**a) for x in argv]
     env = tool_env({'E2FSPROGS_UNDO_DIR': '/nonexistent', 'LD_PRELOAD': IOTRACE, 'IOTRACE_PATH': p, 'IOTRACE_PATH2': u, 'IOTRACE_LOG': lg})
@@ -198,7 +201,7 @@ def flip_job(j):
     return (name, bitpos, None)
 
 def main(tier, only=None):
-    global TOOL, OPS, DEVS, PAYLOAD, BIG, SCRIPT, FLIP
+    global TOOL, OPS, DEVS, PAYLOAD, BIG, SCRIPT, FLIP, ZAP
     ck = Check('C12', tier, 'model_checking')
     TOOL = {k: tool(k) for k in ('tune2fs', 'resize2fs', 'e2fsck', 'debugfs', 'mke2fs', 'e2undo')}
     fsweep.init_scratch()
@@ -208,6 +211,7 @@ def main(tier, only=None):
     PAYLOAD = os.path.join(sc, 'payload'); open(PAYLOAD, 'wb').write(bytes((i * 3 + 1) & 0xff for i in range(9000)))
     BIG = os.path.join(sc, 'big'); open(BIG, 'wb').write(bytes((i * 7 + 5) & 0xff for i in range(1 << 20)))
     SCRIPT = os.path.join(sc, 'script.dbg'); open(SCRIPT, 'w').write('rm /f12\nmkdir /undo_dir\nsymlink /undo_dir/s /one\nkill_file /bs\n')
+    ZAP = os.path.join(sc, 'zap.dbg'); open(ZAP, 'w').write(''.join('zap_block -p 0x5a %d\n' % b for b in range(41, 41 + 3 * 150, 3)))
     OPS = ops_for(None)
     # devices: corpus images, plus odd lengths (free space stamped so that any wrongly restored block shows), plus a filesystem at an offset
     def stamp(d, extra):
@@ -227,11 +231,11 @@ def main(tier, only=None):
     labels = [o[0] for o in OPS]
     jobs = []
     for dn in DEVS:
-        L = labels if not (quick and dn in ('bs4k', 'ext2+1k')) else labels[::2]
+        L = labels if not (quick and dn in ('bs4k', 'ext2+1k')) else sorted(set(labels[::2] + ['debugfs zap 150 scattered blocks']), key=labels.index)
         for a in L:
             jobs.append((dn, (a,), False, 'chain'))
             jobs.append((dn, (a,), True, 'chain'))
-        second = L if not quick else [l for l in L if l in ('tune2fs -L', 'tune2fs csum toggle', 'resize2fs grow', 'resize2fs shrink', 'e2fsck -fyD', 'debugfs fill', 'debugfs rm+mkdir', 'mke2fs ext2', 'mke2fs ext4 4k')]
+        second = L if not quick else [l for l in L if l in ('tune2fs -L', 'tune2fs csum toggle', 'resize2fs grow', 'resize2fs shrink', 'e2fsck -fyD', 'debugfs fill', 'debugfs rm+mkdir', 'mke2fs ext2', 'mke2fs ext4 4k', 'debugfs zap 150 scattered blocks')]
         for a in L:
             for b in second:
                 jobs.append((dn, (a, b), False, 'chain'))
